@@ -1,6 +1,6 @@
 """Common driver for the file-system properties served by harness/cmd/fsops + spec/FSTrace.tla."""
 import json, os, shutil, collections
-import vlib, fsmon
+import vlib, fsmon, stagedmon
 
 
 def run_mode(ctx, mode, extra_args=(), binary="fsops"):
@@ -35,6 +35,13 @@ def run_mode(ctx, mode, extra_args=(), binary="fsops"):
         if drift and not ctx.violations:
             raise vlib.HarnessError("FSTrace model disagrees with the real file system (%s) on trace %s" % (drift[0]["inv"], drift[0]["name"]))
         st["drift"] = len(drift)
+        # protocol inclusion: are the recorded runs behaviours of spec/Staged.tla? (not a verdict: a drifting run is
+        # reported in the evidence and on stderr; the verdicts stay with the snapshots and the FSTrace monitor)
+        if binary == "fsops":
+            sdrift, sst = stagedmon.validate(trace)
+            st["staged"] = dict(sst, design=stagedmon.design(ctx.tier) if mode == "c01" else "see C01", drift=[dict(x, at=x["at"]["ev"]) for x in sdrift[:20]], drift_count=len(sdrift))
+            for x in sdrift[:5]:
+                vlib.log("PROTOCOL-DRIFT %s: the real run %s (t=%d) is not a behaviour of Staged.tla at event %s" % (mode, x["name"], x["t"], x["at"]))
         tl = vlib.read_ndjson(trace)
         return rows, summ, st, tl[1] if len(tl) > 1 else {}
     finally:
